@@ -1369,10 +1369,18 @@ func mismatchShard(tier string) mc.Shard {
 // handBuiltProtoShard: messages mixing binCounts and contiguousBinCounts.
 func handBuiltProtoShard() mc.Shard {
 	name := "C09/hand-built-messages"
-	run := func() (*mc.Result, []mc.Fail) {
-		res := &mc.Result{Scenario: name, Property: "C09", Exhaustive: true}
-		var fails []mc.Fail
-		weights := []float64{0.5, 0, 1, 0.1, 0, 1e300, 3} // zeros: leading, inner and trailing empty bins of a contiguous run
+	run := func() (res *mc.Result, fails []mc.Fail) {
+		res = &mc.Result{Scenario: name, Property: "C09", Exhaustive: true}
+		defer func() {
+			if r := recover(); r != nil {
+				f := mc.Fail{Clause: "C09.no-panic", Detail: fmt.Sprintf("rebuilding a hand-built message panicked: %v\n%s", r, debug.Stack())}
+				fails = append(fails, f)
+				res.Violations = append(res.Violations, mc.Violation{Property: "C09", Clause: f.Clause, Scenario: name, Seed: "messages", History: []string{f.Detail}, Detail: f.Detail})
+			}
+		}()
+		// zeros: leading, inner and trailing empty bins of a contiguous run; weights a hair
+		// away from 1 (unit entries are special in the paginated store)
+		weights := []float64{0.5, 0, 1, 0.1, 0, 1e300, 3, math.Nextafter(1, 2), 1 - 1e-13}
 		keysets := [][]int32{{}, {-33}, {0}, {5}, {-33, 0}, {0, 5}, {-33, 0, 5}}
 		offsets := []int32{-1, 0, 4}
 		m, _ := mapping.NewLogarithmicMapping(0.02)
